@@ -87,7 +87,7 @@ pub fn scenario(ch: &mut Chooser, thorough: bool) -> Exec {
     // the writer splits its stream into owned halves and puts them back together with
     // `reunite` before writing: the reunited stream must behave like the original (bytes,
     // half close, drop)
-    let writer_reunites = !writer_drops_read_half && delay == 0 && !reader_half_closes && ch.flag("writer_splits_and_reunites_first");
+    let writer_reunites = !writer_drops_read_half && !try_write && !reader_sends_byte && delay == 0 && !reader_half_closes && ch.flag("writer_splits_and_reunites_first");
     let abortive_possible = reader_sends_byte && close == Close::Drop;
 
     let mut b = builder(1);
